@@ -714,6 +714,9 @@ type DevCase struct {
 	// InSub: the deviation statements are written in a submodule of the deviating module, which alone imports the
 	// deviated module
 	InSub bool `json:"in_sub,omitempty"`
+	// ExtNote: every deviate also carries the use of an extension that the deviating module
+	// defines (`mdev:note "...";`), which is legal anywhere and changes nothing
+	ExtNote bool `json:"ext_note,omitempty"`
 }
 
 // DevEdit is one deviation: target (index into the node listing of Mods[0]) and what to do.
@@ -956,6 +959,7 @@ func genDev(t *rapid.T) DevCase {
 		}
 	}
 	c.InSub = g.Chance(1, 4, "devinsub")
+	c.ExtNote = g.Chance(1, 3, "devextnote")
 	nd := 1 + g.Pick(3, "ndev")
 	used := map[int]bool{}
 	for i := 0; i < nd && len(refs) > 0; i++ {
@@ -1080,6 +1084,10 @@ func checkDev(c DevCase) fw.Outcome {
 	}
 	orefs, _ := devRefs(c.Mods)
 	dev := &sg.Mod{Name: "mdev", Prefix: "mdev", Imports: []sg.Import{{Mod: c.Mods[0].Name, Prefix: c.Mods[0].Prefix}}}
+	if c.ExtNote {
+		out.Labels = append(out.Labels, "extension-in-deviate")
+		dev.Raw = []string{"extension note { argument text; }"}
+	}
 	plainDev := sg.Clone(dev)
 	belowUses := false
 	for _, e := range c.Devs {
@@ -1092,6 +1100,9 @@ func checkDev(c DevCase) fw.Outcome {
 		d := sg.Deviate{Kind: e.Kind}
 		if stmt != "" {
 			d.Stmts = []string{stmt}
+		}
+		if c.ExtNote {
+			d.Stmts = append([]string{`mdev:note "why";`}, d.Stmts...)
 		}
 		dev.Deviations = append(dev.Deviations, &sg.Deviation{Target: orefs[e.Target].AbsPath(c.Mods[0].Prefix), Deviates: []sg.Deviate{d}})
 		if remove {
